@@ -374,7 +374,9 @@ mod pool_sc {
     /// `rewait`: the waiter first waits with a short timeout and, if that expires, waits again.
     /// `twostep`: the pool also holds a task that parks for 400 ms; the scheduling thread's first
     /// stop(50 ms) times out and it stops a second time.
-    pub fn exec(prefix: &[usize], em: &mut Emitter, stop: bool, unknown: bool, rewait: bool, twostep: bool) {
+    /// `twopools`: the task is accepted by pool A (the waiter waits there) and run by pool B, which the
+    /// scheduling thread drives (the pools share the queue: B steals the task).
+    pub fn exec(prefix: &[usize], em: &mut Emitter, stop: bool, unknown: bool, rewait: bool, twostep: bool, twopools: bool) {
         std::panic::set_hook(Box::new(|_| {}));
         open_coroutine_core::verif::clock_enable(T0);
         init(&["wait:checked", "wait:registered", "wait:block", "wait:woken", "run:popped", "run:inserted", "clean:waiter"], false);
@@ -387,6 +389,8 @@ mod pool_sc {
             }, None, None).expect("submit");
         }
         let wait_for = if unknown { tid ^ 0x5555 } else { tid };
+        let other: &'static mut CoroutinePool<'static> = Box::leak(Box::new(CoroutinePool::new("ppx-pool-b".to_string(), 64 * 1024, 0, 2, 0)));
+        let sh_b = Shared(std::ptr::from_mut(other));
         let sh = Shared(std::ptr::from_mut(pool));
         let out: &'static Mutex<Vec<(String, String)>> = Box::leak(Box::new(Mutex::new(Vec::new())));
         let s1 = sh.clone();
@@ -406,7 +410,7 @@ mod pool_sc {
             };
             out.lock().unwrap().push(("waiter".into(), format!("{txt} after {}s of virtual sleep", slept / 1_000_000_000)));
         });
-        let s2 = sh.clone();
+        let s2 = if twopools { sh_b.clone() } else { sh.clone() };
         let _ = spawn(move || {
             let p = unsafe { &mut *s2.ptr() };
             let txt = if stop {
@@ -596,17 +600,18 @@ pub fn run(scen: &str, tier: &str, rep: &mut Report) -> bool {
     let cfg = RunCfg { hang_after: Duration::from_millis(15_000), ..RunCfg::default() };
     let deadline = Instant::now() + Duration::from_secs(if thorough { 1500 } else { 45 });
     let (ex, bound): (Explored, Option<usize>) = match scen {
-        "ppx.wait" | "ppx.stop" | "ppx.stopwait" | "ppx.rewait" | "ppx.stop2" => {
+        "ppx.wait" | "ppx.stop" | "ppx.stopwait" | "ppx.rewait" | "ppx.stop2" | "ppx.wait2" => {
             let (stop, unknown, prop, rewait, twostep) = match scen {
-                "ppx.wait" => (false, false, "C02", false, false),
+                "ppx.wait" | "ppx.wait2" => (false, false, "C02", false, false),
                 "ppx.rewait" => (false, false, "C02", true, false),
                 "ppx.stop" => (true, false, "C12", false, false),
                 "ppx.stop2" => (true, true, "C12", false, true),
                 _ => (true, true, "C12", false, false),
             };
+            let twopools = scen == "ppx.wait2";
             let bound = None;
             rep.require(&["schedules_judged", "schedules_with_completion_inside_the_check_register_window"]);
-            (explore(|p, em| pool_sc::exec(p, em, stop, unknown, rewait, twostep), |p, r, rep| pool_sc::judge(scen, prop, stop, unknown, p, r, rep), rep, &cfg, bound, if thorough { 20_000 } else { 3000 }, deadline), bound)
+            (explore(|p, em| pool_sc::exec(p, em, stop, unknown, rewait, twostep, twopools), |p, r, rep| pool_sc::judge(scen, prop, stop, unknown, p, r, rep), rep, &cfg, bound, if thorough { 20_000 } else { 3000 }, deadline), bound)
         }
         #[cfg(feature = "preemptive")]
         "ppx.mon" => {
@@ -616,7 +621,7 @@ pub fn run(scen: &str, tier: &str, rep: &mut Report) -> bool {
         }
         _ => return false,
     };
-    rep.bounds = json!({"threads": if scen == "ppx.mon" { "2 scheduling threads + the monitor thread" } else { "waiter + scheduling thread" },
+    rep.bounds = json!({"threads": if scen == "ppx.mon" { "2 scheduling threads + the monitor thread" } else if scen == "ppx.wait2" { "waiter on the accepting pool + the thread scheduling a second pool that steals the task" } else { "waiter + scheduling thread" },
         "scheduling_points": "the crate's verif::point hooks listed in the scenario's filter", "preemption_bound": bound, "schedules": ex.schedules, "max_decisions_in_a_schedule": ex.max_decisions, "capped": ex.capped});
     rep.states = ex.schedules;
     rep.transitions = ex.schedules;
@@ -628,11 +633,12 @@ pub fn replay(scen: &str, v: &Value, em: &mut Emitter) -> bool {
     let Some(p) = v.get("schedule").and_then(Value::as_array) else { return false };
     let prefix: Vec<usize> = p.iter().filter_map(|x| x.as_u64().map(|x| x as usize)).collect();
     match scen {
-        "ppx.wait" => pool_sc::exec(&prefix, em, false, false, false, false),
-        "ppx.rewait" => pool_sc::exec(&prefix, em, false, false, true, false),
-        "ppx.stop" => pool_sc::exec(&prefix, em, true, false, false, false),
-        "ppx.stopwait" => pool_sc::exec(&prefix, em, true, true, false, false),
-        "ppx.stop2" => pool_sc::exec(&prefix, em, true, true, false, true),
+        "ppx.wait" => pool_sc::exec(&prefix, em, false, false, false, false, false),
+        "ppx.wait2" => pool_sc::exec(&prefix, em, false, false, false, false, true),
+        "ppx.rewait" => pool_sc::exec(&prefix, em, false, false, true, false, false),
+        "ppx.stop" => pool_sc::exec(&prefix, em, true, false, false, false, false),
+        "ppx.stopwait" => pool_sc::exec(&prefix, em, true, true, false, false, false),
+        "ppx.stop2" => pool_sc::exec(&prefix, em, true, true, false, true, false),
         #[cfg(feature = "preemptive")]
         "ppx.mon" => mon_sc::exec(&prefix, em, v.get("suspends").and_then(Value::as_u64).unwrap_or(0) as usize),
         _ => return false,
